@@ -20,7 +20,7 @@ pub struct AllocModel {
 }
 pub static mut AM: AllocModel = AllocModel { live: false, ptr: 0, size: 0, align: 0, allocs: 0, reallocs: 0, deallocs: 0 };
 fn am() -> &'static mut AllocModel { unsafe { &mut *core::ptr::addr_of_mut!(AM) } }
-fn am_reset() { *am() = AllocModel { live: false, ptr: 0, size: 0, align: 0, allocs: 0, reallocs: 0, deallocs: 0 }; }
+fn am_reset() { *am() = AllocModel { live: false, ptr: 0, size: 0, align: 0, allocs: 0, reallocs: 0, deallocs: 0 }; unsafe { PM = core::ptr::null(); } }
 
 /// Layout validity as GlobalAlloc / Layout::from_size_align define it
 pub fn layout_valid(size: usize, align: usize) -> bool {
@@ -90,7 +90,7 @@ macro_rules! ha {
         #[kani::stub(core::option::expect_failed, crate::kani_verif::k1_heap::obs_option_expect_failed)]
         #[kani::stub(core::result::unwrap_failed, crate::kani_verif::k1_heap::obs_result_unwrap_failed)]
         $(#[$m])*
-        fn $name() { $body }
+        fn $name() { crate::kani_verif::util::set_domain(21); $body }
     };
 }
 
